@@ -11,6 +11,7 @@ import (
 	"fmt"
 	"hash/fnv"
 	"os"
+	"os/exec"
 	"path/filepath"
 	"regexp"
 	"runtime"
@@ -350,6 +351,7 @@ func Run(cfg harness.Config, idx int, tp *tape.Tape) harness.Result {
 
 	inputHash := hash64(sc.Args, sc.Desc)
 	executed := 0
+	simClass := map[int]string{} // crash just before op i (no partial write) -> class of the first target
 	for _, pt := range points {
 		if err := restore(dir, sc); err != nil {
 			res.HarnessError = err.Error()
@@ -395,6 +397,9 @@ func Run(cfg harness.Config, idx int, tp *tape.Tape) harness.Result {
 			old := oldContent[t]
 			switch {
 			case err != nil && os.IsNotExist(err):
+				if pt.mid == 0 && t == sc.Targets[0] {
+					simClass[pt.at] = "absent"
+				}
 				if !old.Absent {
 					res.Fail("C48", "O48", "d2 %s, %s: %s no longer exists (it held %d bytes before the command)", strings.Join(sc.Args, " "), what, t, len(old.Old))
 				}
@@ -403,8 +408,14 @@ func Run(cfg harness.Config, idx int, tp *tape.Tape) harness.Result {
 				return res
 			case !old.Absent && bytes.Equal(b, old.Old):
 				res.Probe("target_holds_old")
+				if pt.mid == 0 && t == sc.Targets[0] {
+					simClass[pt.at] = "old"
+				}
 			case bytes.Equal(b, newContent[t]):
 				res.Probe("target_holds_new")
+				if pt.mid == 0 && t == sc.Targets[0] {
+					simClass[pt.at] = "new"
+				}
 			default:
 				desc := fmt.Sprintf("%d bytes that are neither the previous %d bytes nor the new %d bytes", len(b), len(old.Old), len(newContent[t]))
 				if len(b) == 0 {
@@ -420,6 +431,9 @@ func Run(cfg harness.Config, idx int, tp *tape.Tape) harness.Result {
 			break
 		}
 	}
+	if res.Oracle == "" && res.HarnessError == "" && crossValidateWanted(cfg) {
+		crossValidate(&res, cfg, dir, sc, dry, newContent, oldContent, simClass)
+	}
 	res.Evals = executed
 	res.Steps = executed
 	res.ProbeN("crash_points_executed", executed)
@@ -430,4 +444,204 @@ func Run(cfg harness.Config, idx int, tp *tape.Tape) harness.Result {
 	}
 	res.Sample = sample{Scenario: sc.Desc, Args: sc.Args, Ops: ops, CrashPoints: executed}
 	return res
+}
+
+// ---------------------------------------------------------------- cross-validation against a real kill
+
+var crossDone int
+
+func crossValidateWanted(cfg harness.Config) bool {
+	if cfg.Extra["D2BIN"] == "" {
+		return false
+	}
+	limit := 1
+	if cfg.Thorough() {
+		limit = 6
+	}
+	if crossDone >= limit {
+		return false
+	}
+	crossDone++
+	return true
+}
+
+type realOp struct {
+	name, path string
+	index      int // index among all calls of that system call name in the process (1-based)
+}
+
+var (
+	straceLine        = regexp.MustCompile(`^\d+\s+(\w+)\((.*)\)\s+= (-?\d+|\?)`)
+	unfinishedResumed = regexp.MustCompile(`^\d+\s+<\.\.\. \w+ resumed>(.*)$`)
+	quoted            = regexp.MustCompile(`"((?:[^"\\]|\\.)*)"`)
+)
+
+// realTrace runs the real d2 binary under strace and returns its mutating file-system
+// calls inside dir, in order.
+func realTrace(d2bin, dir string, args []string) ([]realOp, error) {
+	out := filepath.Join(os.TempDir(), fmt.Sprintf("verifsim-strace-%d.txt", os.Getpid()))
+	defer os.Remove(out)
+	cmd := exec.Command("strace", append([]string{"-f", "-qq", "-o", out, "-e", "trace=openat,close,write,pwrite64,renameat,renameat2,unlinkat,mkdirat,ftruncate,fchmod,fchmodat,utimensat,linkat,symlinkat", d2bin}, args...)...)
+	cmd.Dir = dir
+	cmd.Env = append(os.Environ(), "HOME=/nonexistent-verif-home", "BROWSER=0", "NO_COLOR=1")
+	if o, err := cmd.CombinedOutput(); err != nil {
+		return nil, fmt.Errorf("strace run failed: %v: %s", err, o)
+	}
+	b, err := os.ReadFile(out)
+	if err != nil {
+		return nil, err
+	}
+	fds := map[string]string{}
+	count := map[string]int{}
+	var ops []realOp
+	pending := map[string]string{} // pid -> first half of a call split by strace -f
+	for _, line := range strings.Split(string(b), "\n") {
+		pid := strings.SplitN(line, " ", 2)[0]
+		if i := strings.Index(line, " <unfinished ...>"); i >= 0 {
+			pending[pid] = line[:i]
+			continue
+		}
+		if um := unfinishedResumed.FindStringSubmatch(line); um != nil {
+			line = pending[pid] + um[1]
+			delete(pending, pid)
+		}
+		m := straceLine.FindStringSubmatch(line)
+		if m == nil {
+			continue
+		}
+		name, argstr, ret := m[1], m[2], m[3]
+		count[name]++
+		var strs []string
+		for _, q := range quoted.FindAllStringSubmatch(argstr, -1) {
+			strs = append(strs, q[1])
+		}
+		firstArg := strings.TrimSpace(strings.SplitN(argstr, ",", 2)[0])
+		abs := func(p string) string {
+			if !filepath.IsAbs(p) {
+				p = filepath.Join(dir, p)
+			}
+			return p
+		}
+		in := func(p string) bool { return strings.HasPrefix(p, dir+"/") }
+		switch name {
+		case "openat":
+			if len(strs) > 0 && ret != "-1" && ret != "?" {
+				p := abs(strs[0])
+				fds[ret] = p
+				if in(p) && (strings.Contains(argstr, "O_CREAT") || strings.Contains(argstr, "O_TRUNC")) {
+					ops = append(ops, realOp{"openat", p, count[name]})
+				}
+			}
+		case "close":
+			delete(fds, firstArg)
+		case "write", "pwrite64", "ftruncate", "fchmod":
+			if p, ok := fds[firstArg]; ok && in(p) {
+				n := name
+				if n == "pwrite64" {
+					n = "pwrite"
+				}
+				ops = append(ops, realOp{n, p, count[name]})
+			}
+		case "renameat", "renameat2":
+			if len(strs) >= 2 && (in(abs(strs[0])) || in(abs(strs[1]))) {
+				ops = append(ops, realOp{"renameat", abs(strs[0]) + " -> " + abs(strs[1]), count[name]})
+			}
+		case "unlinkat", "mkdirat", "fchmodat", "utimensat", "linkat", "symlinkat":
+			if len(strs) > 0 && in(abs(strs[0])) {
+				ops = append(ops, realOp{name, abs(strs[0]), count[name]})
+			}
+		}
+	}
+	return ops, nil
+}
+
+func crossValidate(res *harness.Result, cfg harness.Config, dir string, sc scenario, dry outcome, newContent map[string][]byte, oldContent map[string]*fileSpec, simClass map[int]string) {
+	if _, err := exec.LookPath("strace"); err != nil {
+		res.Probe("strace_unavailable")
+		return
+	}
+	d2bin := cfg.Extra["D2BIN"]
+	if err := restore(dir, sc); err != nil {
+		res.HarnessError = err.Error()
+		return
+	}
+	real, err := realTrace(d2bin, dir, sc.Args)
+	if err != nil {
+		// strace not usable here (ptrace forbidden, …): the cross-validation is skipped and
+		// the evidence shows it; the simulated enumeration stands on its own.
+		res.Probe("strace_run_failed")
+		return
+	}
+	// 1. the real binary's mutating calls are exactly the ones the simulation recorded
+	var simOps []simfs.Op
+	for _, o := range dry.ops {
+		if o.Mutating() {
+			simOps = append(simOps, o)
+		}
+	}
+	norm := func(s string) string { return tmpName.ReplaceAllString(s, "/tmp-$1-N") }
+	var a, b []string
+	for _, o := range simOps {
+		p := o.Path
+		if o.Name == "renameat" {
+			p = o.Path + " -> " + o.Path2
+		}
+		a = append(a, o.Name+" "+norm(p))
+	}
+	for _, o := range real {
+		b = append(b, o.name+" "+norm(o.path))
+	}
+	if strings.Join(a, "\n") != strings.Join(b, "\n") {
+		res.HarnessError = fmt.Sprintf("the real d2 binary's mutating system calls differ from the ones the simulation recorded for d2 %v\nsimulated:\n  %s\nreal (strace):\n  %s", sc.Args, strings.Join(a, "\n  "), strings.Join(b, "\n  "))
+		return
+	}
+	res.Probe("real_syscall_trace_matches_recorded_ops")
+	validated := 1
+	// 2. a real SIGKILL on entry of a mutating call leaves what crash-freeze left
+	target := sc.Targets[0]
+	for i, ro := range real {
+		sysname := ro.name
+		if sysname == "pwrite" {
+			sysname = "pwrite64"
+		}
+		if sysname == "openat" || sysname == "write" || sysname == "pwrite64" {
+			// strace can only aim at "the N-th call of that name in the process". The
+			// runtime opens files and writes to its wake-up descriptors from other
+			// threads, so for these two the ordinal of "our" call is not stable. The rare
+			// calls (renameat, fchmod, mkdirat, unlinkat, ftruncate) are only ever ours.
+			continue
+		}
+		if err := restore(dir, sc); err != nil {
+			res.HarnessError = err.Error()
+			return
+		}
+		cmd := exec.Command("strace", append([]string{"-f", "-qq", "-o", "/dev/null", "-e", fmt.Sprintf("inject=%s:signal=SIGKILL:when=%d", sysname, ro.index), d2bin}, sc.Args...)...)
+		cmd.Dir = dir
+		cmd.Env = append(os.Environ(), "HOME=/nonexistent-verif-home", "BROWSER=0", "NO_COLOR=1")
+		cmd.Run()
+		class := "other"
+		bts, err := os.ReadFile(filepath.Join(dir, target))
+		switch {
+		case err != nil && os.IsNotExist(err):
+			class = "absent"
+		case err != nil:
+			res.HarnessError = err.Error()
+			return
+		case !oldContent[target].Absent && bytes.Equal(bts, oldContent[target].Old):
+			class = "old"
+		case bytes.Equal(bts, newContent[target]):
+			class = "new"
+		}
+		want := simClass[simOps[i].Seq]
+		if class == "other" {
+			res.Fail("C48", "O48", "real d2 binary killed (SIGKILL via strace) on entry of %s #%d (%s) during d2 %s: %s holds %d bytes that are neither its previous nor its new content", ro.name, ro.index, norm(ro.path), strings.Join(sc.Args, " "), target, len(bts))
+			return
+		}
+		if class != want {
+			res.HarnessError = fmt.Sprintf("crash-freeze and a real SIGKILL disagree at %s (%s) of d2 %v: simulated outcome %q, real outcome %q", ro.name, norm(ro.path), sc.Args, want, class)
+			return
+		}
+		validated++
+	}
+	res.ProbeN("traces_validated_against_impl", validated)
 }
